@@ -1,15 +1,15 @@
 SPECIFICATION SubSpec
 CONSTANTS
-  Keys = {"a"}
-  NonPub = {}
-  Sizes = {2}
-  Delays = {TRUE}
-  Lates = {FALSE}
+  Keys = {"a", "b"}
+  NonPub = {"join", "leave"}
+  Sizes = {0, 2, 3}
+  Delays = {TRUE, FALSE}
+  Lates = {TRUE, FALSE}
   Threads = {1}
-  MaxAdds = 1
+  MaxAdds = 3
   MaxEnds = 100
   AtomicAdd = FALSE
-  ClosedRefuses = FALSE
+  ClosedRefuses = TRUE
   SplitGet = FALSE
   RecheckOnStore = TRUE
   StaleTimers = FALSE
@@ -19,6 +19,6 @@ CONSTANTS
   SubSplit = TRUE
   CfgSwitch = "none"
 VIEW SubView
-INVARIANTS TypeOK
-PROPERTIES GenBracket
+INVARIANTS TypeOK LatUnique PendingAgree TimerSane NoLeftover WireOrdered
+PROPERTIES GenBracket OrderPreserved LatestCoalesced EndDiscards SizeExact
 CHECK_DEADLOCK FALSE
